@@ -629,10 +629,14 @@ func (g *G) genLocInval(id string) *History {
 			{"/a/%2e%2e/../b", []string{scheme + "://" + host + "/a/%2e%2e/../b", "/a/%2e%2e/../b", "/a/%2E/../b", "/b", "/a/c/.%2e/../../b"}},
 			{"/b", []string{"/a/%2e%2e/../b", "/a/%2e%2e/b", "%2e/b", "/a/..%2fb", "/a/b"}}, // the last two name other URIs
 			{"/d/b", []string{"../d/b", "./b", "b", "/d/./b", "/d/b?", "/d/b#frag", "?q", ""}},
-		}[g.r.Intn(4)]
+			// a reference with bytes that are not URI characters (a server that puts UTF-8 or a space into Location):
+			// it names the URI with those bytes percent-encoded and everything else as written
+			{"/wiki/Caf%C3%A9_(bar)", []string{"/wiki/Caf\xc3\xa9_(bar)", "/wiki/Caf%C3%A9_(bar)", "Caf\xc3\xa9_(bar)", "/wiki/Caf%c3%a9_(bar)"}},
+			{"/a%2Fb/x%20y", []string{"/a%2Fb/x y", "/a%2Fb/x%20y", "/a%2fb/x y", "/a/b/x y"}}, // the last names another URI
+		}[g.r.Intn(6)]
 		bpath = gr.stored
 		h.Ops = append(h.Ops, get(0, "b1"))
-		target := scheme + "://" + host + pick(g, "/p", "/d/p", "/d/b")
+		target := scheme + "://" + host + pick(g, "/p", "/d/p", "/d/b", "/wiki/new")
 		h.Ops = append(h.Ops, Op{Op: "req", AtNs: 10 * sec, Method: pick(g, "POST", "PUT", "DELETE", "PATCH"), URL: target,
 			Replies: []Reply{{Status: pick(g, 200, 201, 204), BodyFail: -1, Body: "w",
 				Hdr: Hdr{{"Date", dateAt(10*sec, 0)}, {pick(g, "Location", "Content-Location"), pick(g, gr.locs...)}}}}})
